@@ -51,7 +51,7 @@ P = {
    text="Key sequences with bounded fan-out and key length and unboundedly many distinct nodes are streamed to a discarding sink in a child process with a counting allocator; live heap at N/2 and peak up to the end of finish() must agree within 10% + 128 KiB (10% + 8 KiB for caches of <= 256 cells, where slow leaks show) for 21 configurations: fan-outs 2..40, key lengths 12..250, prefix-pair keys, increasing/hashed/decreasing values, three geometries, discarding sinks that take at most 1/3/4/8 bytes per call with every 7th call interrupted (what the sink has not taken must not pile up); the number of live heap blocks may rise by at most 64 (caches of <= 256 cells) / 1024 after N/2 (<= 8 on the pinned tree), which sees slow leaks of small blocks.",
    note="Asymptotic claim checked at finitely many N (4e5 quick, up to 1e7 thorough); growth below 5% per doubling would pass.", ref="5/C13"),
  "C14": dict(level="exploration", tech="metamorphic heap measurement of traversals with a counting allocator (small N vs large N); zero-allocation assertion for open/get",
-   text="Peak extra heap and the number of allocations during stream/range/search traversals and k-way set operations are measured at two FST sizes in probe children and must not grow with N; operations: stream, range, search with Subsequence / StartsWith / DFAs with and without dead states / Levenshtein / regex DFA, search_with_state, the four set operations for k in {2,3,8} and a union of range and search streams; Fst::new / Map::new / Set::new on borrowed, Cow and mapped bytes, get, contains_key, contains and len (also on an FST with fan-outs 256/24/12) must perform zero allocations; Map/Set streams (stream, keys, values, range, search, search_with_state), their OpBuilders and the predicates are measured like the raw ones.",
+   text="Peak extra heap and the number of allocations during stream/range/search traversals and k-way set operations are measured at two FST sizes in probe children and must not grow with N; operations: stream, range, search with Subsequence / StartsWith / DFAs with and without dead states / Levenshtein / regex DFA, search_with_state, the four set operations for k in {2,3,8} (plus differences and a symmetric difference in which every candidate is subtracted, so that nothing is emitted) and a union of range and search streams; Fst::new / Map::new / Set::new on borrowed, Cow and mapped bytes, get, contains_key, contains and len (also on an FST with fan-outs 256/24/12) must perform zero allocations; Map/Set streams (stream, keys, values, range, search, search_with_state), their OpBuilders and the predicates are measured like the raw ones.",
    note="Finitely many N; generous multiplicative + additive tolerance calibrated on the pinned tree.", ref="5/C14"),
  "C15": dict(level="exploration", tech="differential byte-equality across construction entry points, threads and child processes",
    text="The same (type, sequence) is built through every entry point incl. extend_stream of unions of part-sets, memory vs Vec vs scripted sinks, with different buffer capacities, with the builder inspected between inserts, from iterators without size hint, on fresh threads, repeated in-process, in 16 threads and in child processes (one of them refused every allocation >= 256 KiB: it may die but not produce other bytes); one sequence exceeds 10^5 keys; all outputs must be byte-identical - also when the sequence is built again on the same thread right after builds that died of an I/O error at each write call.",
